@@ -23,6 +23,9 @@ func rerep(t *rapid.T, s *hx.Spec, role string, entry bool) *hx.Spec {
 		if c.K == "map" {
 			childRole = "entry"
 		}
+		if role == "pstrarr" {
+			childRole = "pstr-elem"
+		}
 		c.E[i] = rerep(t, e, childRole, c.K == "map")
 	}
 	switch c.K {
@@ -39,7 +42,7 @@ func rerep(t *rapid.T, s *hx.Spec, role string, entry bool) *hx.Spec {
 			c.R = "float32"
 		}
 	case "str":
-		if role == "pstr" && rapid.Bool().Draw(t, "bytes") {
+		if (role == "pstr" || role == "pstr-elem") && rapid.Bool().Draw(t, "bytes") {
 			c.R = "bytes"
 		}
 	case "arr":
@@ -60,7 +63,7 @@ func rerep(t *rapid.T, s *hx.Spec, role string, entry bool) *hx.Spec {
 		c.R = rapid.SampledFrom(fit).Draw(t, "maprep")
 	}
 	// Drop wrapping anywhere and at any depth
-	if c.R != "bytes" {
+	if c.R != "bytes" || role == "pstr-elem" {
 		switch rapid.IntRange(0, 11).Draw(t, "drop") {
 		case 0, 1, 2:
 			c.Drop = 1
@@ -84,6 +87,8 @@ func rerepBinds(t *rapid.T, b hx.Bindings) hx.Bindings {
 			role = "pstr"
 		case "ms":
 			role = "ordmap"
+		case "ba":
+			role = "pstrarr"
 		}
 		out[name] = rerep(t, b[name], role, false)
 	}
